@@ -297,20 +297,6 @@ func c05Run(c *engine.Ctx) {
 			}
 		}
 	}
-	c.Sub("grammar")
-	idx := 0
-	g.Enumerate(size, func(e gen.Expr, n int) {
-		idx++
-		if !c.MineIdx(idx) || c.Expired() {
-			return
-		}
-		runProg(g.Program(e), "grammar")
-	})
-	if c.Shard == 0 {
-		c.Count("programs:"+g.Name, int64(idx))
-	}
-	c.Sample(map[string]any{"program": "[1,2,3] as $x | [$x, (. + $v)]", "histories": "drained x3, fresh copy, abandoned + other input + rerun, two interleaved iterators", "inputs": len(ins)})
-
 	// every builtin applied to every input (arity 0, and arity 1/2 over a small argument set)
 	c.Sub("builtin-sweep")
 	bl, _ := single(RunText("builtins", nil, DefaultBudget))
@@ -536,6 +522,26 @@ func c05Run(c *engine.Ctx) {
 		}
 		runProg(src, "corpus")
 	}
+
+	// the grammar last: at the quick bound completely, then (thorough) at the larger bound for as long as the guard allows
+	for _, sz := range []int{3, size} {
+		c.Sub("grammar")
+		idx := 0
+		g.Enumerate(sz, func(e gen.Expr, n int) {
+			idx++
+			if !c.MineIdx(idx) || c.Expired() {
+				return
+			}
+			runProg(g.Program(e), "grammar")
+		})
+		if c.Shard == 0 {
+			c.Count(fmt.Sprintf("programs:%s<=%d", g.Name, sz), int64(idx))
+		}
+		if size == 3 {
+			break
+		}
+	}
+	c.Sample(map[string]any{"program": "[1,2,3] as $x | [$x, (. + $v)]", "histories": "drained x3, fresh copy, abandoned + other input + rerun, two interleaved iterators", "inputs": len(ins)})
 }
 
 var c05NumberPrograms = []string{"add", "add(.[])", "reduce .[] as $x (0; . + $x)", "reduce .[] as $x (null; . + $x)", "[foreach .[] as $x (0; . + $x)]", "[foreach .[] as $x (null; . + $x; [., $x])]",
